@@ -28,6 +28,7 @@ type MachineProvider interface {
 	EventsList() []fsm.Event
 
 	StatesList() []fsm.State
+	FinStatesList() []fsm.State
 
 	IsFinState(state fsm.State) bool
 }
@@ -123,6 +124,16 @@ func Init(machines ...MachineProvider) *FSMPool {
 				p.states[state] = machineName
 			}
 
+		}
+		// final states that do not hand over to another machine (cancelled rounds) belong to the
+		// machine that reaches them, so that a round persisted in such a state can be loaded again
+		for _, state := range machine.FinStatesList() {
+			if _, isEntry := allInitStatesMap[state]; isEntry {
+				continue
+			}
+			if _, exists := p.states[state]; !exists {
+				p.states[state] = machineName
+			}
 		}
 	}
 
